@@ -75,6 +75,11 @@ pub struct FnInfo {
     pub order: usize,
 }
 
+thread_local! {
+    /// selected type aliases: (crate, name) -> type
+    static ALIASES: RefCell<BTreeMap<(String, String), Ty>> = RefCell::new(BTreeMap::new());
+}
+
 /// length expression of an array type (`[T; LEN]`, possibly behind references)
 pub fn array_len_of(t: &syn::Type) -> Option<syn::Expr> {
     let mut t = t;
@@ -176,6 +181,7 @@ fn has_cfg_test(attrs: &[syn::Attribute]) -> bool {
 }
 
 pub enum Found<'a> {
+    Alias(&'a syn::ItemType),
     Const(&'a syn::ItemConst),
     Struct(&'a syn::ItemStruct),
     Enum(&'a syn::ItemEnum),
@@ -188,6 +194,7 @@ pub fn find<'a>(path: &str, file: &'a syn::File, sel: &Sel) -> R<Found<'a>> {
     for item in &file.items {
         match (sel, item) {
             (Sel::Const(n), syn::Item::Const(c)) if c.ident == n && !has_cfg_test(&c.attrs) => hits.push(Found::Const(c)),
+            (Sel::TypeAlias(n), syn::Item::Type(t)) if t.ident == n && !has_cfg_test(&t.attrs) => hits.push(Found::Alias(t)),
             (Sel::Struct(n), syn::Item::Struct(s)) | (Sel::StructView(n, _), syn::Item::Struct(s)) | (Sel::StructIgnore(n, _), syn::Item::Struct(s))
                 if s.ident == n && !has_cfg_test(&s.attrs) =>
             {
@@ -242,6 +249,7 @@ pub fn find<'a>(path: &str, file: &'a syn::File, sel: &Sel) -> R<Found<'a>> {
     }
     let what = match sel {
         Sel::Const(n) => format!("const {}", n),
+        Sel::TypeAlias(n) => format!("type {}", n),
         Sel::Struct(n) | Sel::StructView(n, _) | Sel::StructIgnore(n, _) => format!("struct {}", n),
         Sel::Enum(n) => format!("enum {}", n),
         Sel::Fn(n) => format!("fn {}", n),
@@ -345,6 +353,13 @@ impl Globals {
         {
             {
                 match find(path, file, sel)? {
+                    Found::Alias(t) => {
+                        if !t.generics.params.is_empty() {
+                            return err_at(path, t.generics.span(), "generic type alias is not supported");
+                        }
+                        let ty = conv_ty(path, &t.ty, None, &type_names)?;
+                        ALIASES.with(|a| a.borrow_mut().insert((crate_of(path).to_string(), t.ident.to_string()), ty));
+                    }
                     Found::Const(c) => {
                         let ty = conv_ty(path, &c.ty, None, &type_names)?;
                         g.consts.entry(c.ident.to_string()).or_default().push(ConstInfo {
@@ -775,6 +790,10 @@ pub fn conv_ty(file: &str, t: &syn::Type, self_ty: Option<&str>, type_names: &[S
             let name = type_key(file, &name, type_names);
             if type_names.iter().any(|n| *n == name) {
                 return Ok(Ty::Named(name));
+            }
+            // a selected `type Name = T;` of this crate
+            if let Some(t) = ALIASES.with(|a| a.borrow().get(&(crate_of(file).to_string(), name.clone())).cloned()) {
+                return Ok(t);
             }
             err_at(file, t.span(), format!("unsupported type `{}`", quote::quote!(#t)))
         }
